@@ -218,6 +218,45 @@ def correspond_constants(tier):
         c.case(("const", name), True)
         if sg["resample_factor"].default != 4:
             c.disagree(input=name + ".resample_factor", impl=repr(sg["resample_factor"].default), model="4 (trainerRun)")
+    # regenerated signatures: the model describes fit_mvstud(data, tolerance, max_iter), from_particles(u, weights, labels,
+    # dof_fallback, resample_factor), from_global(u, weights, dof_fallback, resample_factor) and a Trainer whose only state besides
+    # its configuration is _clusterer_fitted. A new (optional) argument or attribute is a new input channel of the fit that the
+    # model does not have: the tie is not established until it is modelled.
+    from tempest.steps.train import Trainer
+    import ast
+    want_sig = {"fit_mvstud": ["data", "tolerance", "max_iter"],
+                "from_particles": ["cls", "u", "weights", "labels", "dof_fallback", "resample_factor"],
+                "from_global": ["cls", "u", "weights", "dof_fallback", "resample_factor"],
+                "Trainer.__init__": ["self", "state", "pbar", "clusterer", "cluster_every", "clustering", "TRIM_ESS", "TRIM_BINS",
+                                     "DOF_FALLBACK"],
+                "Trainer.run": ["self", "weights"]}
+    got_sig = {"fit_mvstud": list(inspect.signature(st.fit_mvstud).parameters),
+               "from_particles": ["cls"] + list(inspect.signature(tm.ModeStatistics.from_particles).parameters),
+               "from_global": ["cls"] + list(inspect.signature(tm.ModeStatistics.from_global).parameters),
+               "Trainer.__init__": list(inspect.signature(Trainer.__init__).parameters),
+               "Trainer.run": list(inspect.signature(Trainer.run).parameters)}
+    for k in want_sig:
+        c.case(("signature", k), True)
+        if got_sig[k] != want_sig[k]:
+            c.disagree(input="signature of " + k, impl=repr(got_sig[k]), model=repr(want_sig[k]), signature_changed=k)
+    # attributes assigned on self anywhere in the Trainer (static): configuration + the one flag
+    tree = ast.parse(inspect.getsource(Trainer))
+    assigned = sorted({t.attr for n in ast.walk(tree) if isinstance(n, (ast.Assign, ast.AugAssign, ast.AnnAssign))
+                       for t in (n.targets if isinstance(n, ast.Assign) else [n.target])
+                       if isinstance(t, ast.Attribute) and isinstance(t.value, ast.Name) and t.value.id == "self"})
+    want_attr = sorted(["state", "pbar", "clusterer", "cluster_every", "clustering", "TRIM_ESS", "TRIM_BINS", "DOF_FALLBACK",
+                        "_clusterer_fitted"])
+    c.case(("signature", "Trainer attributes"), True)
+    if assigned != want_attr:
+        c.disagree(input="attributes the Trainer assigns on itself", impl=repr(assigned), model=repr(want_attr),
+                   signature_changed="Trainer attributes")
+    # calls of fit_mvstud in modes.py: the data only (defaults of tolerance / max_iter, no further channel)
+    mtree = ast.parse(inspect.getsource(tm))
+    calls = [n for n in ast.walk(mtree) if isinstance(n, ast.Call) and isinstance(n.func, ast.Name) and n.func.id == "fit_mvstud"]
+    c.case(("signature", "fit_mvstud call sites in modes.py"), True)
+    if len(calls) != 2 or any(len(n.args) != 1 or n.keywords for n in calls):
+        c.disagree(input="fit_mvstud call sites in modes.py", impl=[ast.unparse(n) for n in calls],
+                   model="two calls, fit_mvstud(u_resampled)", signature_changed="fit_mvstud call sites")
     c.case(("const", "config.DOF_FALLBACK finite"), True)
     if not (math.isfinite(float(tcfg.DOF_FALLBACK)) and float(tcfg.DOF_FALLBACK) > 0):
         c.disagree(input="config.DOF_FALLBACK", impl=repr(tcfg.DOF_FALLBACK), model="a positive finite number (assumption of the dof clause)")
@@ -421,11 +460,18 @@ def _tape_str(tape):
     return flist(tape, lambda v: v if isinstance(v, str) else f2hex(v))
 
 
+def _fits_arg(fits):
+    # a single empty tape ("-": the first solve raised, opt_nu was never called) must not read as "no fit functions"
+    if not fits:
+        return "-"
+    return "-;-" if list(fits) == ["-"] else ";".join(fits)
+
+
 def _modes_line(kind, u, w, labels, fbv, rfv, us, fits, extra=""):
     N, d = u.shape
     return (f"smodes.F kind={kind} d={d} N={N} u={flist(u.ravel().tolist(), f2hex)} w={flist(list(w), f2hex)} "
             f"labels={flist([int(v) for v in labels], str)} fb={f2hex(fbv)} rf={rfv} us={flist(us, f2hex)} "
-            f"fits={';'.join(fits) if fits else '-'}{extra}")
+            f"fits={_fits_arg(fits)}{extra}")
 
 
 def _parse_built(ans):
@@ -744,6 +790,235 @@ def correspond_trainer(tier):
     return c
 
 
+# ------------------------------------------------------------------------------------------- one Trainer over several iterations
+class _RankClusterer:
+    """deterministic double of the clusterer: K = 1, or two clusters split at the median of the first coordinate of the data it
+    was FITTED on (raw labels 0 and 3); predict() before fit() raises like the real one"""
+
+    def __init__(self, k):
+        self.k = k
+        self.thr = None
+        self.events = []
+
+    def fit(self, u, w=None):
+        self.events.append("F")
+        self.thr = float(np.median(np.asarray(u)[:, 0]))
+        return self
+
+    def predict(self, u):
+        self.events.append("P")
+        if self.thr is None:
+            raise ValueError("Normalization bounds not set. Call fit first.")
+        u = np.asarray(u)
+        if self.k == 1:
+            return np.zeros(len(u), dtype=int)
+        return (u[:, 0] > self.thr).astype(int) * 3
+
+
+def sequence_cfg(rng, family=None):
+    """a weighted particle history whose weight moves from an early broad population A to a later population B over the
+    iterations of ONE Trainer; `drift` in units of A's spread, `shrink` = spread of B / spread of A"""
+    family = family or rng.choice(["contract_drift", "contract_drift", "contract_drift", "same", "expand", "far"])
+    if family == "contract_drift":     # what reweighting does when beta increases
+        drift, shrink = rng.uniform(0.8, 1.6), rng.choice([0.03, 0.05, 0.1, 0.2])
+    elif family == "same":
+        drift, shrink = 0.0, 1.0
+    elif family == "expand":
+        drift, shrink = rng.uniform(0.0, 1.0), rng.uniform(1.5, 3.0)
+    else:
+        drift, shrink = rng.uniform(2.5, 6.0), rng.uniform(0.2, 1.0)
+    return {"family": family, "d": rng.choice([1, 2, 2, 3]), "n": rng.randint(40, 90), "k": rng.choice([1, 1, 2]),
+            "ce": rng.choice([1, 2, 2, 3, 5]), "it0": rng.randint(0, 6), "iters": rng.randint(3, 5),
+            "law": rng.choice(["gauss", "gauss", "gauss", "heavy"]), "drift": drift, "shrink": shrink, "sharp": rng.random() < 0.5,
+            "fbv": rng.choice([None, 1e6, 7.5]), "seed": rng.getrandbits(31)}
+
+
+def _sequence_history(cfg):
+    g = np.random.default_rng(cfg["seed"])
+    d, n = cfg["d"], cfg["n"]
+    z = (lambda: g.standard_normal((n, d))) if cfg["law"] == "gauss" else (lambda: g.standard_t(4, size=(n, d)) / math.sqrt(2.0))
+    ca, sa = g.uniform(0.25, 0.45, size=d), g.uniform(0.05, 0.1)
+    dirn = g.standard_normal(d)
+    dirn /= np.linalg.norm(dirn)
+    pop_a = ca + sa * z()
+    pop_b = ca + cfg["drift"] * sa * dirn + cfg["shrink"] * sa * z()
+    wa, wb = g.random(n) + 0.2, g.random(n) + 0.2
+    return pop_a, pop_b, wa / wa.sum(), wb / wb.sum()
+
+
+def run_trainer_sequence(cfg):
+    """REAL Trainer (clusterer: deterministic double) called once per iteration on ONE StateManager history while the weights
+    move from population A to population B.  Every fit_mvstud call made by the trainer is recorded with its data.
+    Model-free oracles, all exact on correct code:
+      * statement: each fit's location is finite and inside the bounding box of ITS data, scale symmetric with a Cholesky factor,
+        nu in (0, inf]; the ModeStatistics carries exactly these values (dof through the fallback);
+      * the fit is a function of its data: fit_mvstud(same rows) called afresh returns the same triple bit for bit, and a NEW Trainer
+        given the same state / clusterer state / random stream returns the same ModeStatistics bit for bit;
+      * the Trainer carries no fitted quantity from call to call (its attribute set is the constructor's)."""
+    import copy
+    import tempest.modes as tm
+    import tempest.student as st
+    from tempest.state_manager import StateManager
+    from tempest.steps.train import Trainer
+    d, n = cfg["d"], cfg["n"]
+    pop_a, pop_b, wa, wb = _sequence_history(cfg)
+    state = StateManager(d)
+    for j, u in enumerate((pop_a, pop_b)):
+        state.update_current({"u": u, "x": u.copy(), "logl": -0.5 * np.sum(u ** 2, axis=1), "beta": 0.0, "logz": 0.0, "iter": j,
+                              "assignments": np.zeros(n, dtype=int)})
+        state.commit_current_to_history()
+    kw = {} if cfg["fbv"] is None else {"DOF_FALLBACK": cfg["fbv"]}
+
+    def mk(cl):
+        return Trainer(state=state, pbar=None, clusterer=cl, cluster_every=cfg["ce"], clustering=True, TRIM_ESS=0.99, TRIM_BINS=10, **kw)
+
+    cl = _RankClusterer(cfg["k"])
+    tr = mk(cl)
+    attrs0 = set(vars(tr))
+    real_fit = st.fit_mvstud
+    rec = []
+
+    def obs_fit(x, *a, **k):
+        x = np.array(x, dtype=float, copy=True)
+        with contextlib.redirect_stdout(io.StringIO()):
+            out = real_fit(x, *a, **k)
+        rec.append({"x": x, "args": (a, dict(k)), "out": (np.array(out[0], dtype=float), np.atleast_2d(np.array(out[1], dtype=float)),
+                                                           float(out[2]))})
+        return out
+
+    statement, function, stats = [], [], {"fits": 0, "reuse_iterations": 0, "inf_exits": 0}
+    L = cfg["iters"]
+    with common.patched(tm, "fit_mvstud", obs_fit), contextlib.redirect_stdout(io.StringIO()), warnings.catch_warnings():
+        warnings.simplefilter("ignore")
+        for t in range(L):
+            it = cfg["it0"] + t
+            lam = 1.0 - t / (L - 1)
+            if cfg["sharp"]:
+                lam = 1.0 if t < L // 2 else 0.0
+            if cfg["k"] > 1:
+                # with two clusters keep some weight on both populations: a cluster whose particles all have weight 0 makes
+                # np.random.choice refuse its probabilities (0/0) -- not a situation the reweighting step produces
+                lam = min(max(lam, 0.03), 0.97)
+            w = np.concatenate([lam * wa, (1.0 - lam) * wb])
+            w = np.maximum(w, 0.0) / w.sum()
+            state.set_current("iter", it)
+            state.set_current("beta", 0.1 + 0.8 * t / L)
+            cl_before = copy.deepcopy(cl)
+            fitted_before = tr._clusterer_fitted
+            del rec[:]
+            where = f"iteration {it} (call {t + 1} of this Trainer, cluster_every={cfg['ce']})"
+            np.random.seed((cfg["seed"] + t) % (2 ** 31))
+            try:
+                ms = tr.run(w.copy())
+            except np.linalg.LinAlgError:
+                stats["constructor_refused"] = stats.get("constructor_refused", 0) + 1
+                break
+            mine = [dict(r) for r in rec]
+            if "F" not in cl.events[len(cl_before.events):]:
+                stats["reuse_iterations"] += 1
+            got_d = [float(v) for v in np.asarray(ms.degrees_of_freedom, dtype=float).ravel()]
+            for k_, r in enumerate(mine):
+                stats["fits"] += 1
+                x, (mu, S, nu) = r["x"], r["out"]
+                if math.isinf(nu):
+                    stats["inf_exits"] += 1
+                lo, hi = x.min(0), x.max(0)
+                slack = 1e-12 * (np.abs(lo) + np.abs(hi) + (hi - lo))
+                tag = f"{where}, mode {k_}, {len(x)} rows"
+                if not np.all(np.isfinite(mu)) or np.any(mu < lo - slack) or np.any(mu > hi + slack):
+                    statement.append(f"{tag}: fitted location {mu.tolist()} outside the bounding box [{lo.tolist()}, {hi.tolist()}] of "
+                                     f"the rows it was fitted to (sd fitted/data = {(np.sqrt(np.abs(np.diag(S))) / x.std(0)).tolist()})")
+                elif not (nu > 0):
+                    statement.append(f"{tag}: degrees of freedom {nu!r} not in (0, inf]")
+                else:
+                    sd = np.sqrt(np.abs(np.diag(S)))
+                    if not np.all(np.isfinite(S)) or np.any(np.abs(S - S.T) > 1e-12 * np.outer(sd, sd)):
+                        statement.append(f"{tag}: scale matrix not finite / symmetric")
+                    elif base._rcond(S) > 1e-10:
+                        try:
+                            np.linalg.cholesky(S)
+                        except np.linalg.LinAlgError:
+                            statement.append(f"{tag}: scale matrix has no Cholesky factor")
+                with contextlib.redirect_stdout(io.StringIO()):
+                    fmu, fS, fnu = real_fit(x.copy())
+                fmu, fS, fnu = np.asarray(fmu, dtype=float), np.atleast_2d(np.asarray(fS, dtype=float)), float(fnu)
+                same = (np.array_equal(fmu, mu) and np.array_equal(fS, S) and (fnu == nu or (fnu != fnu and nu != nu)))
+                if not same:
+                    e = base._rel_diff(mu, S, nu, fmu, fS, fnu)
+                    function.append((e, f"{tag}: the fit is not a function of its data: the trainer's fit returned location {mu.tolist()}, "
+                                        f"nu {nu!r}; fit_mvstud(the same rows) returns {fmu.tolist()}, nu {fnu!r} (relative {e:.3g}); "
+                                        f"arguments passed besides the data: {r['args']!r}"))
+                want_d = nu if math.isfinite(nu) else float(tr.DOF_FALLBACK)
+                if k_ < ms.means.shape[0] and not (np.array_equal(np.asarray(ms.means[k_], dtype=float), mu)
+                                                   and np.array_equal(np.asarray(ms.covariances[k_], dtype=float), S)
+                                                   and f2hex(got_d[k_]) == f2hex(want_d)):
+                    function.append((math.inf, f"{tag}: ModeStatistics holds mean {np.asarray(ms.means[k_]).tolist()}, dof {got_d[k_]!r}; the "
+                                               f"fit returned {mu.tolist()}, nu {nu!r} (fallback {float(tr.DOF_FALLBACK)!r})"))
+            # a NEW trainer in the same situation (same state, same clusterer state and flag, same random stream)
+            cl2 = copy.deepcopy(cl_before)
+            tr2 = mk(cl2)
+            tr2._clusterer_fitted = fitted_before
+            np.random.seed((cfg["seed"] + t) % (2 ** 31))
+            try:
+                ms2 = tr2.run(w.copy())
+                eq = (np.array_equal(np.asarray(ms.means), np.asarray(ms2.means))
+                      and np.array_equal(np.asarray(ms.covariances), np.asarray(ms2.covariances))
+                      and [f2hex(v) for v in got_d] == [f2hex(float(v)) for v in np.asarray(ms2.degrees_of_freedom, dtype=float).ravel()])
+            except np.linalg.LinAlgError:
+                eq = True
+            if not eq:
+                e = float(np.max(np.abs(np.asarray(ms.means) - np.asarray(ms2.means))
+                                 / np.sqrt(np.abs(np.diagonal(np.asarray(ms2.covariances), axis1=1, axis2=2)))))
+                function.append((e, f"{where}: a Trainer with a history returns means {np.asarray(ms.means).tolist()}, a new Trainer in the "
+                                    f"same state with the same random stream returns {np.asarray(ms2.means).tolist()}"))
+            extra = set(vars(tr)) - attrs0
+            if extra:
+                function.append((0.0, f"{where}: the Trainer acquired state between calls: attribute(s) {sorted(extra)}"))
+    function.sort(key=lambda p: -p[0])
+    return statement, function, stats
+
+
+def sequence_oracle(cfg, statement_only=False):
+    """failing input of the property: a clause of the statement violated by a fit the Trainer hands to the kernel, or a fit that
+    differs from the fit of its own data by more than 1e-6 relative (location / scale in units of the fitted spread, nu)"""
+    statement, function, _ = run_trainer_sequence(cfg)
+    if statement:
+        return statement[0]
+    if statement_only:
+        return None
+    for e, msg in function:
+        if e > 1e-6:
+            return msg
+    return None
+
+
+def correspond_sequence(tier):
+    count = 30 if tier == "quick" else 500
+    rng = common.rng_for("C19.sequence")
+    c = Corr("trainer-sequence", "exact oracle on the real Trainer called 3-6 times on one history while the weights move from a broad to a "
+                                 "(compact, drifted / expanded / far / identical) population, cluster_every in {1,2,3,5}, K in {1,2}: every fit "
+                                 "handed to the kernel satisfies the statement against ITS OWN rows, equals fit_mvstud(same rows) and the result "
+                                 "of a new Trainer bit for bit, and the Trainer holds no fitted state between calls")
+    for t in range(count):
+        cfg = sequence_cfg(rng)
+        try:
+            statement, function, stats = run_trainer_sequence(cfg)
+        except Exception as e:  # noqa
+            c.disagree(input=cfg, impl=f"raised {type(e).__name__}: {e}", model="-", sequence_cfg=cfg)
+            c.case(tuple(sorted(cfg.items())), False)
+            continue
+        c.case(tuple(sorted(cfg.items())), stats["reuse_iterations"] > 0)
+        c.count("family_" + cfg["family"])
+        c.count(f"cluster_every={cfg['ce']}")
+        for k, v in stats.items():
+            c.count(k, v)
+        if statement or function:
+            c.disagree(input=cfg, impl=(statement + [m for _, m in function])[:3], model="every fit is the fit of its own rows",
+                       sequence_cfg=cfg)
+        c.sample({"cfg": cfg, "stats": stats})
+    return c
+
+
 # ------------------------------------------------------------------------------------------- hand-off to the kernel (real runs)
 def kernel_handoff_run(cfg):
     """one real Sampler run (tpCN kernel); fit_mvstud is the real function but its returned nu is overridden on a schedule
@@ -763,10 +1038,34 @@ def kernel_handoff_run(cfg):
     real_init = mc.TPCNRunner.__init__
     cur = {"ms": None, "fit_dofs": [], "iter": 0}
     problems = []
+    soft = []
     stats = {"gamma_calls": 0, "fallbacks": 0, "iterations_with_kernel": 0, "runner_arrays": 0}
 
     def fit(x, *a, **k):
         mu, S, nu = real_fit(x, *a, **k)
+        # the fit handed to the kernel is the fit of ITS rows (whatever this Trainer fitted on earlier iterations)
+        xx = np.array(x, dtype=float)
+        stats["fits"] = stats.get("fits", 0) + 1
+        lo, hi = xx.min(0), xx.max(0)
+        slack = 1e-12 * (np.abs(lo) + np.abs(hi) + (hi - lo))
+        m_ = np.asarray(mu, dtype=float)
+        if (not np.all(np.isfinite(m_)) or np.any(m_ < lo - slack) or np.any(m_ > hi + slack)) and len(problems) < 5:
+            problems.append(f"iteration {cur['iter'] + 1}: fit of {len(xx)} rows: location {m_.tolist()} outside the bounding box "
+                            f"[{lo.tolist()}, {hi.tolist()}] of its rows (sd fitted/data = "
+                            f"{(np.sqrt(np.abs(np.diag(np.atleast_2d(S)))) / xx.std(0)).tolist()})")
+        else:
+            fmu, fS, fnu = real_fit(xx.copy())
+            if not (np.array_equal(np.asarray(fmu), m_) and np.array_equal(np.atleast_2d(fS), np.atleast_2d(S))
+                    and (float(fnu) == float(nu))):
+                e = base._rel_diff(m_, np.atleast_2d(np.asarray(S, dtype=float)), float(nu), np.asarray(fmu, dtype=float),
+                                   np.atleast_2d(np.asarray(fS, dtype=float)), float(fnu))
+                stats["fits_not_fresh"] = stats.get("fits_not_fresh", 0) + 1
+                if e > 1e-6 and len(problems) < 5:
+                    problems.append(f"iteration {cur['iter'] + 1}: fit of {len(xx)} rows returned location {m_.tolist()}, nu {float(nu)!r}; "
+                                    f"fit_mvstud(the same rows) returns {np.asarray(fmu).tolist()}, nu {float(fnu)!r} (relative {e:.3g}); "
+                                    f"extra arguments {(a, dict(k))!r}")
+                elif e <= 1e-6:
+                    soft.append(f"fit differs from the fit of its rows in the last bits (relative {e:.3g})")
         q = rng.random()
         if q < cfg["p_inf"]:
             nu = rng.choice([np.inf, float("inf"), np.float64("inf")])
@@ -826,10 +1125,11 @@ def kernel_handoff_run(cfg):
         try:
             s = Sampler(prior, like, d, n_particles=cfg["n_particles"], clustering=cfg["clustering"], sample="tpcn",
                         cluster_every=cfg.get("ce", 1), n_steps=2, n_max_steps=4)
-            s.run(n_total=cfg["n_particles"] * 2, progress=False)
+            s.run(n_total=cfg["n_particles"] * cfg.get("mult", 2), progress=False)
         except Exception as e:  # noqa
             crashed = f"{type(e).__name__}: {e}"
     assert np.random.gamma is real_gamma and tm.fit_mvstud is real_fit
+    stats["soft"] = len(soft)
     return problems, stats, crashed
 
 
@@ -837,7 +1137,8 @@ def handoff_cfgs(tier, rng):
     n = 6 if tier == "quick" else 40
     out = []
     for t in range(n):
-        out.append({"d": rng.choice([2, 3]), "n_particles": rng.choice([16, 24]), "clustering": t % 2 == 0, "ce": rng.choice([1, 2]),
+        out.append({"d": rng.choice([2, 3]), "n_particles": rng.choice([16, 24]), "clustering": t % 3 != 2,
+                    "ce": rng.choice([1, 2, 3, 5]) if t % 3 == 0 else rng.choice([2, 3, 5]), "mult": rng.choice([2, 4]),
                     "p_inf": rng.choice([0.5, 0.3, 1.0]), "p_nan": rng.choice([0.0, 0.3]), "seed": rng.getrandbits(31)})
     return out
 
@@ -853,6 +1154,10 @@ def correspond_handoff(tier):
         for k, v in stats.items():
             c.count(k, v)
         c.count("clustering" if cfg["clustering"] else "global")
+        c.count(f"cluster_every={cfg['ce']}")
+        if stats.get("soft"):
+            c.disagree(input=cfg, impl=f"{stats['soft']} fit(s) handed to the kernel differ from fit_mvstud(their rows) in the last bits",
+                       model="bit-identical: the fit is a function of its rows", handoff_cfg=cfg)
         if crashed:
             # a run that stops with an exception out of the Student-t fit / the ModeStatistics constructor on a degenerate
             # cluster never reaches the kernel: no dof was handed over; what was handed over before is still checked
@@ -962,4 +1267,12 @@ def sweep_cases(tier):
                     "dofs_hex": [f2hex(v) for v in dofs], "labels": labels, "seed": rng.getrandbits(31)}})
     for cfg in handoff_cfgs("quick", rng)[:2 if tier == "quick" else 6]:
         out.append({"kind": "handoff", "handoff_cfg": cfg})
+    # one Trainer over several iterations while the weighted population contracts and drifts (cluster_every >= 2: the iterations
+    # that reuse the clustering) -- every mode handed to the kernel must be the fit of its own rows
+    for t in range(24 if tier == "quick" else 200):
+        cfg = sequence_cfg(rng, "contract_drift" if t % 4 else None)
+        if t % 4:
+            cfg["ce"] = rng.choice([2, 3, 5])
+            cfg["law"] = "gauss"
+        out.append({"kind": "sequence", "sequence_cfg": cfg})
     return out
